@@ -3,7 +3,7 @@ import math
 import random
 from . import common, gen, harness
 
-METHODS_EXPLICIT = ["DOPRI5"]
+METHODS_EXPLICIT = ["DOPRI5", "DOP853", "RK23", "RK4"]
 METHODS_ALL = list(METHODS_EXPLICIT)
 
 
